@@ -10,6 +10,7 @@ package main
 //   life cancel-send <len>                         SendPackage with a cancelled context
 //   life closed-ops <chan>                         every call after Close
 //   life double-close <chan>                       Close twice
+//   life close-waiting <k>                         Close while a receiver waits on the idle channel, then the receiver's context is cancelled
 //   life conn-close <nchan> <pending> [<gap>]      Conn.Close with <pending> unread packages per channel; logical channel <gap> closed before
 //   life close-pending <chan> <pending> <cap>      Close with <pending> packages of an abandoned response, queue capacity <cap>
 //   life reader-exit <errors>                      peer closes, <errors> read errors unconsumed, then Conn.Close: reader ends
@@ -173,6 +174,43 @@ func lifeImpl(line string) string {
 			out += " slow"
 		}
 		return out
+	case "close-waiting":
+		// a receiver is waiting on an idle channel when Close is called from another goroutine; later the
+		// receiver's context is cancelled. The receiver ends with the context's error (or the closed
+		// condition) — never with "no package, no error" —, Close returns, later calls report closed.
+		e := newLifeEnv(100)
+		defer e.conn.VerifCancel()
+		ch := e.conn.VerifNewChannel(1 + arg(2)%3)
+		ctx, cancel := context.WithCancel(context.Background())
+		defer cancel()
+		recv := make(chan string, 1)
+		go func() {
+			pkg, err := ch.NextPackage(ctx, true)
+			recv <- classify(pkg, err)
+		}()
+		time.Sleep(10 * time.Millisecond)
+		closed := make(chan struct{})
+		go func() { ch.Close(); close(closed) }()
+		time.Sleep(20 * time.Millisecond)
+		cancel()
+		var parts []string
+		select {
+		case r := <-recv:
+			parts = append(parts, "recv="+r)
+		case <-time.After(wd):
+			return "blocked"
+		}
+		select {
+		case <-closed:
+			parts = append(parts, "close=ok")
+		case <-time.After(wd):
+			return "blocked"
+		}
+		parts = append(parts, watchdog(wd, func() string {
+			p, err := ch.NextPackage(context.Background(), false)
+			return "after=" + classify(p, err)
+		}))
+		return strings.Join(parts, " ")
 	case "cancel-send":
 		n := arg(2)
 		e := newLifeEnv(100)
@@ -454,7 +492,7 @@ func lifeOracle(line, out string) string {
 		switch f[1] {
 		case "abandon-close":
 			return "after a channel is closed every call on it reports the closed condition (it does not block)"
-		case "close-pending", "close-errors", "closed-ops", "double-close", "conn-close", "reader-exit", "reader-exit-unknown":
+		case "close-pending", "close-errors", "closed-ops", "double-close", "conn-close", "reader-exit", "reader-exit-unknown", "close-waiting":
 			return "Close returns in bounded time whatever the state of the receive queue and the peer"
 		}
 		return "a call with a cancelled context returns promptly"
@@ -514,6 +552,13 @@ func lifeOracle(line, out string) string {
 		if kv["written"] != "0" {
 			return "after Close nothing is sent"
 		}
+	case "close-waiting":
+		if kv["recv"] != "ctx" && kv["recv"] != "closed" {
+			return "a receive call that is waiting when the channel is closed ends with the context's error or the closed condition (never without a package and without an error)"
+		}
+		if kv["after"] != "closed" {
+			return "after Close every call reports the closed condition"
+		}
 	case "double-close":
 		if kv["close2"] != "closed" {
 			return "a second Close reports the closed condition"
@@ -564,6 +609,9 @@ func init() {
 			}
 			for _, w := range []string{"c", "n"} {
 				emit(Case{Line: "life abandon-close " + w, Kind: "closed"})
+			}
+			for _, c := range []int{0, 1, 2} {
+				emit(Case{Line: fmt.Sprintf("life close-waiting %d", c), Kind: "close-while-receiving"})
 			}
 			for _, c := range []int{0, 1, 7} {
 				emit(Case{Line: fmt.Sprintf("life closed-ops %d", c), Kind: "closed"})
